@@ -119,6 +119,13 @@ def c07_3(ctx):
         from rules.C09 import _sat
         ctx.check(all(_sat(gi.f_and(e.cond, given)) for e in wide), "reader-dispatches-given-byte", ctx.where(pf),
                   "parse_satoshi_int reads the 2 / 4 / 8 byte forms only when it read the first byte itself: a prefix byte 0xfd / 0xfe / 0xff handed in by the caller is returned as the count")
+    # the reader returns every value the writer can write: it has no refusal of its own (a limit on the decoded value makes
+    # binary forms that serialise -- a large block index, a long script -- unreadable)
+    wpr = sym.walk(ctx, pf)
+    refusals = [e for e in wpr.exits if e.kind == "raise" and e.cond not in (False,)]
+    ctx.check(not refusals, "reader-refuses-nothing", ctx.where(pf, refusals[0].node) if refusals else ctx.where(pf),
+              "parse_satoshi_int refuses decoded values under `%s`; stream_satoshi_int writes every non-negative integer below 2^64, so what is written no longer reads back" % (str(refusals[0].cond)[:100] if refusals else ""),
+              sample={"reader": "parse_satoshi_int", "refusing_exits": 0})
     _refcheck(ctx, SSTR, "stream_satoshi_string", "ss_stream", "var-string-writer")
     # any function that computes the SIZE of a compact-size integer (answers 1 / 3 / 5 / 9 by the value) uses the writer's own
     # partition: 0..252, 253..65535, 65536..2^32-1, the rest
